@@ -16,6 +16,7 @@ fn main() {
         return;
     }
     let cli = common::cli();
+    net::raise_fd_limit();
     match cli.id.as_str() {
         "C11" => c11::run(cli),
         "C12" => c12::run(cli),
